@@ -108,7 +108,10 @@ class ImageBatch(DataTensor):
         grids = [g for g in (getattr(arg, "_grid", None) for arg in args) if g is not None]
         if not grids:
             return None
-        if kwargs.get("dim", 0) == 0:
+        dim = kwargs.get("dim", 0)
+        if func in (torch.tensor_split, Tensor.tensor_split) and len(args) > 2:
+            dim = args[2]
+        if dim == 0:
             if func == torch.cat:
                 return [g for grid in grids for g in grid]
             if func in (torch.split, Tensor.split):
@@ -138,7 +141,12 @@ class ImageBatch(DataTensor):
             if func in (torch.tensor_split, Tensor.tensor_split):
                 grids = grids[0]
                 split_grids = []
-                tensor_indices_or_sections = args[1]
+                if len(args) > 1:
+                    tensor_indices_or_sections = args[1]
+                else:
+                    tensor_indices_or_sections = kwargs.get("sections", kwargs.get("indices"))
+                if isinstance(tensor_indices_or_sections, Tensor):
+                    tensor_indices_or_sections = tensor_indices_or_sections.tolist()
                 if isinstance(tensor_indices_or_sections, int):
                     # Number of sections (not size), where first len(grids) % sections are one larger
                     num, rem = divmod(len(grids), tensor_indices_or_sections)
